@@ -43,10 +43,12 @@ theorem getElem?_storeN (f : Nat → BitVec 8) (off n : Nat) (buf : Bytes) (i : 
       by_cases h2 : off + n < buf.size
       · have : off ≤ off + n ∧ off + n < off + (n + 1) ∧ off + n < buf.size := by omega
         rw [if_pos h2, if_pos this, Nat.add_sub_cancel_left]
+        simp
       · have : ¬ (off ≤ off + n ∧ off + n < off + (n + 1) ∧ off + n < buf.size) := by omega
         have h3 : buf[off + n]? = none := by
           apply Array.getElem?_eq_none; omega
         rw [if_neg h2, if_neg this, h3]
+        simp
     · rw [if_neg h1]
       by_cases h2 : off ≤ i ∧ i < off + n ∧ i < buf.size
       · have : off ≤ i ∧ i < off + (n + 1) ∧ i < buf.size := by omega
@@ -78,37 +80,48 @@ theorem getD_writeU64_in (buf : Bytes) (off v j : Nat) (hj : j < 8) (hsz : off +
   rw [Array.getD_eq_getD_getElem?, getElem?_writeU64, if_pos this, Nat.add_sub_cancel_left]
   rfl
 
-theorem readU64_eq (buf : Bytes) (off : Nat) :
-    readU64 buf off =
-      0 + (buf.getD (off + 0) 0).toNat * 256 ^ 0 + (buf.getD (off + 1) 0).toNat * 256 ^ 1 +
-      (buf.getD (off + 2) 0).toNat * 256 ^ 2 + (buf.getD (off + 3) 0).toNat * 256 ^ 3 +
-      (buf.getD (off + 4) 0).toNat * 256 ^ 4 + (buf.getD (off + 5) 0).toNat * 256 ^ 5 +
-      (buf.getD (off + 6) 0).toNat * 256 ^ 6 + (buf.getD (off + 7) 0).toNat * 256 ^ 7 := by
+/-- generic little-endian style sum `Σ_{k<n} g k` in the shape `readU64` uses -/
+def sumN (g : Nat → Nat) (n : Nat) : Nat := (List.range n).foldl (fun acc k => acc + g k) 0
+
+theorem sumN_succ (g : Nat → Nat) (n : Nat) : sumN g (n + 1) = sumN g n + g n := by
+  unfold sumN
+  rw [List.range_succ, List.foldl_append, List.foldl_cons, List.foldl_nil]
+
+theorem sumN_congr (g g' : Nat → Nat) (n : Nat) (h : ∀ k, k < n → g k = g' k) : sumN g n = sumN g' n := by
+  induction n with
+  | zero => rfl
+  | succ n ih =>
+    rw [sumN_succ, sumN_succ, ih (fun k hk => h k (by omega)), h n (by omega)]
+
+theorem readU64_eq_sumN (buf : Bytes) (off : Nat) :
+    readU64 buf off = sumN (fun k => (buf.getD (off + k) 0).toNat * 256 ^ k) 8 := by
+  unfold readU64 sumN
   rfl
 
 /-- the value read depends only on the eight bytes of the slot -/
 theorem readU64_congr (a b : Bytes) (off : Nat) (h : ∀ j, j < 8 → a.getD (off + j) 0 = b.getD (off + j) 0) :
     readU64 a off = readU64 b off := by
-  rw [readU64_eq, readU64_eq, h 0 (by omega), h 1 (by omega), h 2 (by omega), h 3 (by omega), h 4 (by omega),
-    h 5 (by omega), h 6 (by omega), h 7 (by omega)]
+  rw [readU64_eq_sumN, readU64_eq_sumN]
+  apply sumN_congr
+  intro k hk
+  rw [h k hk]
 
-/-- Σ_k ((v >>> 8k) mod 256)·256^k = v for v < 2^64 -/
-theorem le_bytes_sum (v : Nat) (hv : v < 2 ^ 64) :
-    0 + (v >>> (8 * 0)) % 256 * 256 ^ 0 + (v >>> (8 * 1)) % 256 * 256 ^ 1 + (v >>> (8 * 2)) % 256 * 256 ^ 2 +
-    (v >>> (8 * 3)) % 256 * 256 ^ 3 + (v >>> (8 * 4)) % 256 * 256 ^ 4 + (v >>> (8 * 5)) % 256 * 256 ^ 5 +
-    (v >>> (8 * 6)) % 256 * 256 ^ 6 + (v >>> (8 * 7)) % 256 * 256 ^ 7 = v := by
-  simp only [Nat.shiftRight_eq_div_pow]
-  omega
+/-- Σ_{k<n} ((v >>> 8k) mod 256)·256^k = v mod 256^n -/
+theorem sumN_le_bytes (v n : Nat) : sumN (fun k => (v >>> (8 * k)) % 256 * 256 ^ k) n = v % 256 ^ n := by
+  induction n with
+  | zero => simp [sumN, Nat.mod_one]
+  | succ n ih =>
+    rw [sumN_succ, ih, Nat.mod_pow_succ, Nat.shiftRight_eq_div_pow, Nat.pow_mul, Nat.mul_comm]
+
+theorem pow256_8 : (256 : Nat) ^ 8 = 2 ^ 64 := by decide
 
 /-- write then read the same slot -/
 theorem readU64_writeU64 (buf : Bytes) (off v : Nat) (hsz : off + 8 ≤ buf.size) (hv : v < 2 ^ 64) :
     readU64 (writeU64 buf off v) off = v := by
-  rw [readU64_eq, getD_writeU64_in buf off v 0 (by omega) hsz, getD_writeU64_in buf off v 1 (by omega) hsz,
-    getD_writeU64_in buf off v 2 (by omega) hsz, getD_writeU64_in buf off v 3 (by omega) hsz,
-    getD_writeU64_in buf off v 4 (by omega) hsz, getD_writeU64_in buf off v 5 (by omega) hsz,
-    getD_writeU64_in buf off v 6 (by omega) hsz, getD_writeU64_in buf off v 7 (by omega) hsz]
-  simp only [BitVec.toNat_ofNat]
-  exact le_bytes_sum v hv
+  rw [readU64_eq_sumN, sumN_congr _ (fun k => (v >>> (8 * k)) % 256 * 256 ^ k) 8, sumN_le_bytes, pow256_8,
+    Nat.mod_eq_of_lt hv]
+  intro k hk
+  rw [getD_writeU64_in buf off v k hk hsz, BitVec.toNat_ofNat]
 
 /-- a write to a disjoint slot does not change what is read -/
 theorem readU64_writeU64_disjoint (buf : Bytes) (off off' v : Nat) (h : off + 8 ≤ off' ∨ off' + 8 ≤ off) :
